@@ -15,7 +15,7 @@ func NormalizeBounds(
 			minBound = minimum
 
 		case float64:
-			if minimum == nil || v > *minimum {
+			if minimum == nil || v >= *minimum {
 				minBound = &v
 				minExclusive = true
 			} else {
@@ -40,7 +40,7 @@ func NormalizeBounds(
 			maxBound = maximum
 
 		case float64:
-			if maximum == nil || v < *maximum {
+			if maximum == nil || v <= *maximum {
 				maxBound = &v
 				maxExclusive = true
 			} else {
